@@ -2,7 +2,7 @@
    x explicit api_version x compliance x local/remote (harness/props/c15.py). *)
 From Coq Require Import List Bool Arith.
 Import ListNotations.
-From MV Require Import Ext.Adapters Ext.AdaptersP.
+From MV Require Import Ext.Adapters Ext.AdaptersP Ext.GenAdapt Gen.AdaptFns Ext.AdaptTie.
 
 Theorem C15_accepted_iff : forall s, version s <> [] -> (forall e, explicit s = Some e -> e <> []) ->
   (exists a b c, start s = Started a b c) <->
@@ -29,6 +29,20 @@ Print Assumptions C15_setup_done.
 Theorem C15_other_requests_unchanged : forall b c k, deliver b c (ROther k) = Some (ROther k).
 Proof. exact deliver_other. Qed.
 Print Assumptions C15_other_requests_unchanged.
+
+(* tie to the source: LocalProxy.init, init_and_get_adapter, the two adapters' send and the V3ToV2 meta property as regenerated
+   from mosaik/proxies.py and mosaik/adapters.py on every run are the model the theorems above are about *)
+Theorem C15_generated_start_is_the_model : forall s, gen_start_of s = start s.
+Proof. exact tie_start. Qed.
+Print Assumptions C15_generated_start_is_the_model.
+Theorem C15_generated_adapter_stack_delivers_like_the_model : forall v e st r, init_and_get_adapter (Some v) e = GProxy st ->
+  send_through v3_send v2_send st r = deliver (vlt v [2; 2]) (vlt v [3]) r.
+Proof. exact tie_deliver. Qed.
+Print Assumptions C15_generated_adapter_stack_delivers_like_the_model.
+Theorem C15_generated_meta_type_is_the_model : forall v e st g, init_and_get_adapter (Some v) e = GProxy st ->
+  (if existsb is_v3 st then v3_meta_type g else g) = meta_type (vlt v [3]) g.
+Proof. exact tie_meta_type. Qed.
+Print Assumptions C15_generated_meta_type_is_the_model.
 
 Example C15_nonvacuous : start (mkStart [2; 1; 3] None true true) = Started true true true /\
                          start (mkStart [3; 0] (Some [3; 0]) true false) = RejectedNotCompliant.
